@@ -843,3 +843,85 @@ func c01Sizes(r *Run) {
 		}
 	}
 }
+
+// ---------- C17: what a failed Execute leaves behind ----------
+
+// An Execute that returns an error after some elements were already selected, followed by an Execute of another input
+// (through the same and through a fresh Filter): the second result is decided by its own input alone.
+func c17AfterErrors(r *Run) {
+	for _, n := range []int{3, 8, 33, 64, 65, 100, 130, 300} {
+		bad := make([]interface{}, n)
+		good := make([]interface{}, n)
+		badS := make([]S1, n)
+		goodS := make([]S1, n)
+		for i := 0; i < n; i++ {
+			bad[i] = map[string]interface{}{"X": 1, "from": "bad"}
+			good[i] = map[string]interface{}{"X": i % 3, "from": "good"}
+			badS[i] = S1{A: 1, B: "bad"}
+			goodS[i] = S1{A: i % 3, B: "good"}
+		}
+		bad[n-1] = map[string]interface{}{"from": "bad"} // no X: the expression errors here, after n-1 selected elements
+		badMixed := append(append([]interface{}{}, bad[:n-1]...), 5)
+		var badArr [70]map[string]interface{}
+		for i := range badArr {
+			badArr[i] = map[string]interface{}{"X": 1}
+		}
+		badArr[69] = map[string]interface{}{}
+		for _, e := range []string{"X == 1", "X != 0", "X == 1 or from == good"} {
+			f, err := bexpr.CreateFilter(e)
+			if err != nil {
+				continue
+			}
+			for k, b := range []interface{}{bad, badMixed, badArr} {
+				o1 := executeWith(f, b)
+				for which, flt := range []*bexpr.Filter{f, nil} {
+					if flt == nil {
+						flt, _ = bexpr.CreateFilter(e)
+					}
+					got, err := flt.Execute(good)
+					r.Evaluations++
+					r.Seen(fmt.Sprintf("after-error|%d|%s|%d|%d", n, e, k, which))
+					c := map[string]interface{}{"expression": e, "first_input": fmt.Sprintf("%d elements, the last one makes the expression fail (%T)", reflect.ValueOf(b).Len(), b), "first_result": truncate(o1, 60), "second_input": fmt.Sprintf("%d maps with X = i mod 3", n)}
+					if err != nil {
+						r.Violate("spurious-error", fmt.Sprintf("after-error|%d|%s", n, e), c, "the second Execute returned an error: "+err.Error())
+						continue
+					}
+					o2 := executeObsOf(got)
+					checkFilterCoherence(r, e, fmt.Sprintf("after-error-%d", n), good, got, o2, c)
+				}
+			}
+		}
+		// structs: a filter whose expression errors on a later element type-independently is not available; use a map-keyed error instead
+		if f, err := bexpr.CreateFilter("M.k == 1 or A == 1"); err == nil {
+			badS[n-1].M = map[string]int{"k": 1}
+			executeWith(f, badS)
+			got, err := f.Execute(goodS)
+			if err == nil {
+				checkFilterCoherence(r, "M.k == 1 or A == 1", fmt.Sprintf("after-struct-%d", n), goodS, got, executeObsOf(got), map[string]interface{}{"expression": "M.k == 1 or A == 1", "n": n})
+			}
+		}
+	}
+}
+
+// executeObsOf renders an Execute result the way executeObs does.
+func executeObsOf(got interface{}) string {
+	rv := reflect.ValueOf(got)
+	if !rv.IsValid() {
+		return "NIL"
+	}
+	switch rv.Kind() {
+	case reflect.Slice:
+		var p []string
+		for i := 0; i < rv.Len(); i++ {
+			p = append(p, cVal(rv.Index(i)))
+		}
+		return fmt.Sprintf("(slice %s (%s))", cType(rv.Type()), strings.Join(p, " "))
+	case reflect.Map:
+		s := cVal(rv)
+		i := strings.Index(s, "(VMap ")
+		inner := s[i+len("(VMap "):]
+		inner = inner[strings.Index(inner, " ")+1 : len(inner)-1]
+		return fmt.Sprintf("(map %s %s)", cType(rv.Type()), inner)
+	}
+	return "OTHER:" + rv.Kind().String()
+}
